@@ -1282,6 +1282,27 @@ pub fn run(r: &Req) -> Vec<(String, String)> {
         let s = "avx2=0 ssse3=0".to_string();
         return vec![("-".into(), s)];
     }
+    if r.op == "rawnnfa" {
+        // Tie for L1cMemCompile: the raw vectors of the real noncontiguous NFA just before `shuffle` (hook H5)
+        let res = (|| -> Result<String, String> {
+            let pats = r.list("pats")?;
+            let mk = match_kind(r)?;
+            aho_corasick::verif::enable_preshuffle(true);
+            let built = aho_corasick::nfa::noncontiguous::Builder::new()
+                .match_kind(mk)
+                .ascii_case_insensitive(r.b("fold"))
+                .prefilter(false)
+                .build(&pats);
+            aho_corasick::verif::enable_preshuffle(false);
+            let raw = aho_corasick::verif::take_preshuffle();
+            match (built, raw) {
+                (Ok(_), Some(s)) => Ok(s),
+                (Err(e), _) => Ok(format!("build-error:{}", e)),
+                (Ok(_), None) => Ok("no-record".to_string()),
+            }
+        })();
+        return vec![("-".into(), res.unwrap_or_else(|e| format!("bad-request:{}", e)))];
+    }
     if r.op == "bufcap" {
         // Tie C by observation: the (min, capacity) of the roll buffer the real code creates
         aho_corasick::verif::set_stream_spare(None);
